@@ -11,11 +11,11 @@
    reserved temporaries) - decided by the check only; (2) `continue` inside `while` is excluded by the hypothesis [guard]:
    that is known finding F7 (the lowering skips the re-test), see C01_F7_witness below; (3) function definitions are
    statements of the enclosing scope and calls are evaluated by the same evaluator on both sides, so the theorem is per scope
-   (global list or one function body), for any call depth inside expressions; (4) premise Ev_blind: expression evaluation
-   does not read the statement counter (no library function reads options['statementCount']). *)
+   (global list or one function body), for any call depth inside expressions; (4) premises on the LIBRARY only (C01_simulation_library_premises_partial): monotone in the
+   termination of its callbacks, and it does not read options['statementCount']; both proved for the modelled library. *)
 From Coq Require Import List.
 From BS Require Import Model.Base Model.Num Model.Arith Model.ExprParser Model.Script Model.Interp Model.LibCore Model.RunC01
-                       Model.ScriptX Model.Lower Proofs.Fuel Proofs.C01 Proofs.C01b Proofs.C01c Proofs.C01d Proofs.C07.
+                       Model.ScriptX Model.Lower Proofs.Fuel Proofs.C01 Proofs.C01b Proofs.C01c Proofs.C01d Proofs.Blind Proofs.C07.
 
 Lemma real_lab_inj : forall k n k' n', real_lab k n = real_lab k' n' -> k = k' /\ n = n'.
 Proof.
@@ -57,6 +57,26 @@ Theorem C01_simulation_partial : forall cfg, c_max cfg = 0%Z ->
     Run cfg lib url_rel lint_lines um (fst (compile real_lab None n s)) 0 loc wm (out, loc', wm').
 Proof. intros cfg Hunl lib url_rel lint_lines Hlib um Hb. exact (scope_sim cfg Hunl lib url_rel lint_lines Hlib um real_lab real_lab_inj Hb). Qed.
 Print Assumptions C01_simulation_partial.
+
+(* the same with the premise on evaluation discharged: with an unlimited budget the interpreter never reads the statement
+   counter (Proofs/Blind.v, mutual induction over eval/call/exec), provided the LIBRARY does not read it *)
+Theorem C01_simulation_library_premises_partial : forall cfg, c_max cfg = 0%Z ->
+  forall lib url_rel lint_lines, lib_fuel_monotone lib -> lib_count_blind lib ->
+  forall um s loc w o loc' w', SExec cfg lib url_rel lint_lines um s (loc, w) o (loc', w') ->
+  wf false s = true -> guard s = true ->
+  forall n wm, weq w wm ->
+  exists out wm', scope_result o = Some out /\ weq w' wm' /\
+    Run cfg lib url_rel lint_lines um (fst (compile real_lab None n s)) 0 loc wm (out, loc', wm').
+Proof.
+  intros cfg Hunl lib url_rel lint_lines Hf Hb um.
+  exact (scope_sim cfg Hunl lib url_rel lint_lines Hf um real_lab real_lab_inj (Ev_blind_holds cfg Hunl lib url_rel lint_lines Hb um)).
+Qed.
+Print Assumptions C01_simulation_library_premises_partial.
+
+(* both library premises hold for the modelled library functions (non-vacuity) *)
+Theorem C01_premises_hold_for_modelled_library : forall cfg, lib_fuel_monotone (libcore cfg) /\ lib_count_blind (libcore cfg).
+Proof. intros cfg. split; [exact (libcore_fuel_monotone cfg)|exact (libcore_count_blind cfg)]. Qed.
+Print Assumptions C01_premises_hold_for_modelled_library.
 
 (* [compile] IS the parser's lowering: folding the parser's pure lowering step (Model/Lower.v kstep; Props/C07.v proves
    pstep = classify ; kstep) over the line kinds of a tree, from the parser's initial state and whatever the line numbers and
